@@ -1088,8 +1088,9 @@ def masked_iterate_final() -> Callable[[GenerativeFunction[Y]], GenerativeFuncti
         def pre(state, flag: Flag):
             return flag, state
 
-        def post(_unused_args, _xformed, masked_retval: Mask[Y]):
-            return masked_retval.value, None
+        def post(_unused_args, xformed, masked_retval: Mask[Y]):
+            _flag, state = xformed
+            return masked_retval.unmask(default=state), None
 
         # scan_step: (a, bool) -> a
         scan_step = step.mask().dimap(pre=pre, post=post)
